@@ -923,6 +923,9 @@ class TT():
         if indices.dim() != 2 or indices.shape[1] != len(self.__N):
             raise InvalidArguments(
                 'The index matrix must have one column per mode.')
+        if not (indices.is_floating_point() or indices.is_complex()):
+            # an index matrix of another integer type (uint8 would be taken for a mask by torch)
+            indices = indices.long()
         result = apply_mask(self.cores, self.__R, indices)
         return result
 
